@@ -21,6 +21,12 @@ Print Assumptions C05_new_label_fresh.
 Theorem C05_default_label_honoured : forall labels d, new_label labels (Some d) = d.
 Proof. exact new_label_default. Qed.
 Print Assumptions C05_default_label_honoured.
+(* through ANY history of accepted insertions (particles of any size) and deletions (any index sets): two tracked atoms carry the same
+   label exactly when they belong to the same real particle, and the label array is the one the real atoms carry (one label per atom) *)
+Theorem C05_labels_track_particles : forall es lp, Part lp -> ev_ok lp es ->
+  Part (fold_left truth_step es lp) /\ fold_left label_step es (map fst lp) = map fst (fold_left truth_step es lp).
+Proof. exact labels_track_particles. Qed.
+Print Assumptions C05_labels_track_particles.
 (* deletion removes exactly the deleted atoms' entries *)
 Theorem C05_deletion_keeps_survivors : forall labels default removed, on_atoms_changed labels default 0 removed = delete labels removed.
 Proof. exact on_changed_delete. Qed.
@@ -36,5 +42,10 @@ Theorem C05_counter : forall (P O : Type) (dP : P) (dO : O) hist (s : cstate P O
 Proof. exact counter_history. Qed.
 Print Assumptions C05_counter.
 
+Example C05_history_nonvacuous :
+  let lp := [(0, 0%nat); (0, 0%nat); (-1, 7%nat); (3, 1%nat)] in
+  Part lp /\ ev_ok lp [Ins 2 2; Del [0%nat; 1%nat]; Ins 1 3] /\
+  map fst (fold_left truth_step [Ins 2 2; Del [0%nat; 1%nat]; Ins 1 3] lp) = [-1; 3; 4; 4; 5].
+Proof. exact labels_track_nonvacuous. Qed.
 Example C05_nonvacuous : on_atoms_changed [0; 0; -1; 3] None 2 [0%nat; 1%nat] = [-1; 3; 4; 4] /\ on_atoms_changed [5; -1] (Some 0) 1 [] = [5; -1; 0].
 Proof. split; reflexivity. Qed.
